@@ -785,11 +785,43 @@ def brace_format(tmpl, pos, kw):
                 if j < 0:
                     return Unknown("format: unbalanced brace")
                 body = s[i + 1:j]
-                if "{" in body:
-                    return Unknown("format: nested replacement field")
                 conv = None
                 spec = None
-                if ":" in body:
+                if "{" in body:
+                    # a nested replacement field inside the format specification:  {:{w}}  {0:{width}.{prec}E}
+                    depth, j = 0, i
+                    while j < len(s):
+                        if s[j] == "{":
+                            depth += 1
+                        elif s[j] == "}":
+                            depth -= 1
+                            if depth == 0:
+                                break
+                        j += 1
+                    if depth != 0:
+                        return Unknown("format: unbalanced brace")
+                    body = s[i + 1:j]
+                    if ":" not in body or "{" in body.split(":", 1)[0]:
+                        return Unknown("format: nested replacement field outside the specification")
+                    body, rawspec = body.split(":", 1)
+                    sp = []
+                    k = 0
+                    while k < len(rawspec):
+                        if rawspec[k] == "{":
+                            e = rawspec.find("}", k)
+                            if e < 0:
+                                return Unknown("format: unbalanced brace")
+                            nm = rawspec[k + 1:e]
+                            if nm == "":
+                                # automatic numbering continues after the outer field
+                                nm = "__auto__"
+                            sp.append(("nested", nm))
+                            k = e + 1
+                        else:
+                            sp.append(("c", rawspec[k]))
+                            k += 1
+                    spec = sp
+                elif ":" in body:
                     body, spec = body.split(":", 1)
                 if "!" in body:
                     body, conv = body.split("!", 1)
@@ -808,6 +840,29 @@ def brace_format(tmpl, pos, kw):
                     if key not in kw:
                         return Unknown(f"format: missing argument {key}")
                     v = kw[key]
+                if isinstance(spec, list):
+                    pieces = []
+                    for kind_, x_ in spec:
+                        if kind_ == "c":
+                            pieces.append(Lit(x_))
+                            continue
+                        if x_ == "__auto__":
+                            if auto >= len(pos):
+                                return Unknown("format: missing positional argument")
+                            nv = pos[auto]
+                            auto += 1
+                        elif x_.isdigit():
+                            if int(x_) >= len(pos):
+                                return Unknown("format: missing positional argument")
+                            nv = pos[int(x_)]
+                        else:
+                            if x_ not in kw:
+                                return Unknown(f"format: missing argument {x_}")
+                            nv = kw[x_]
+                        if not is_rat(nv):
+                            return Unknown("format: nested field value")
+                        pieces.append(Fld(nv))
+                    spec = Txt(pieces)
                 if lit:
                     out.append(Lit("".join(lit)))
                     lit = []
